@@ -63,12 +63,20 @@ func fullRead(c *core.Ctx) {
 					continue
 				}
 				nObj := resultObj(info, fd.Body, call, 0)
-				forwards := false
-				for _, ret := range astx.Returns(fd.Body) {
-					if len(ret.Results) == 2 && nObj != nil && astx.ObjOf(info, ret.Results[0]) == nObj {
-						forwards = true
+				// every return reached after the delegated read hands the callee's count on: bytes that
+				// arrived together with an error (io.EOF on the last chunk) are still the caller's
+				forwards, after := nObj != nil, 0
+				astx.ForEachExit(info, fd.Body, func(s *astx.State, kind astx.ExitKind, ret *ast.ReturnStmt) {
+					ran := s.AnyStep(func(n ast.Node) bool { return astx.Contains(n, call) })
+					if !ran {
+						return
 					}
-				}
+					after++
+					if ret == nil || len(ret.Results) != 2 || astx.ObjOf(info, ret.Results[0]) != nObj {
+						forwards = false
+					}
+				})
+				forwards = forwards && after > 0
 				// n must not be compared or used as an index
 				used := false
 				ast.Inspect(fd.Body, func(x ast.Node) bool {
@@ -224,6 +232,59 @@ func copynLoop(c *core.Ctx) {
 	c.Check(len(probs) == 0 && succ > 0, "payload-complete", cp.Pos(), "%d success path(s) through the payload copy, each with the full declared size copied%s", succ, joinProblems(probs))
 	// the count passed to CopyN is the remaining size, derived from the decoded length
 	c.Check(remObj != nil, "copy-count", cp.Pos(), "io.CopyN copies `%s` bytes", types.ExprString(cp.Args[2]))
+	// termination: a path that comes back to the copy for another round has either seen err == nil (CopyN then
+	// copied everything that remained, so the loop condition ends it) or established that this round copied
+	// at least one byte; a round that copied nothing and loops again never ends on a truncated body
+	if loop := enclosingLoop(fd.Body, cp); loop != nil {
+		rounds, stuck := 0, 0
+		w2 := astx.NewWalker(info, fd.Body)
+		w2.MaxVisits = 2
+		w2.OnNode = func(s *astx.State, n ast.Node) bool {
+			if !astx.Contains(n, cp) {
+				return false
+			}
+			first := -1
+			for i, st := range s.Steps {
+				if astx.Contains(st, cp) {
+					first = i
+					break
+				}
+			}
+			if first < 0 {
+				return false // first round
+			}
+			rounds++
+			progressed := false
+			for _, f := range s.Taken {
+				if f.At <= first {
+					continue
+				}
+				l, op, r, ok := astx.CompareOp(f.Expr)
+				if !ok {
+					continue
+				}
+				lo := astx.ObjOf(info, astx.StripConv(info, l))
+				if errObj != nil && lo == errObj && astx.IsNil(info, r) && (op == token.EQL) == f.Pol && (op == token.EQL || op == token.NEQ) {
+					progressed = true
+				}
+				if v, isC := astx.ConstInt(info, r); isC && v == 0 && nObj != nil && lo == nObj {
+					if (op == token.EQL && !f.Pol) || (op == token.NEQ && f.Pol) || (op == token.GTR && f.Pol) || (op == token.LEQ && !f.Pol) {
+						progressed = true
+					}
+				}
+			}
+			if !progressed {
+				stuck++
+			}
+			return true
+		}
+		w2.Walk()
+		if w2.Truncated {
+			c.Undecided("progress", cp.Pos(), "path enumeration truncated")
+		} else {
+			c.Check(stuck == 0 && rounds > 0, "progress", cp.Pos(), "%d path(s) come back for another round of the payload copy, %d of them without err == nil or a non-zero count established in the round before", rounds, stuck)
+		}
+	}
 }
 
 // eofTaint decides whether expression e, evaluated on path s, may be an error that wraps io.EOF.
